@@ -94,26 +94,37 @@ theorem invCap_acquire {c c' : Cell} {aid : Nat} {ch ch' : List Nat} {b : Bool} 
             obtain ⟨rfl, _⟩ := h
             exact core_appSame (a' := { a with identity := some k }) hc (app?_mem ha) rfl rfl rfl
 
-/-- Every primitive transition preserves `InvCap`. -/
-theorem invCap_prim {c c' : Cell} (hc : InvCap c) (hp : Prim c c') : InvCap c' := by
+theorem invCap_dropDangling {c : Cell} {a : App} {sid : Nat} (hc : InvCap c) (ha : c.app? a.id = some a)
+    (hon : a.server = some sid) (hgone : c.srv? sid = none) :
+    InvCap (c.setApp { a with server := none, evicted := true }) := by
+  refine core_dropDangling (a' := { a with server := none, evicted := true }) hc (app?_mem ha) hon ?_ rfl rfl rfl
+  intro s hs e
+  unfold Cell.srv? at hgone
+  have := List.find?_eq_none.mp hgone s hs
+  simp [e] at this
+
+/-- Every (labelled) primitive transition preserves `InvCap`. -/
+theorem invCap_lprim {c c' : Cell} {lab : Lab} (hc : InvCap c) (hp : LPrim lab c c') : InvCap c' := by
   cases hp with
   | put h => exact invCap_put hc h
   | remove h => exact invCap_remove hc h
   | release h => exact invCap_release hc h
   | acquire h => exact invCap_acquire hc h
-  | appMeta ha hid hsv _ _ hd _ _ _ _ _ _ _ _ _ => exact invCap_appSame hc ha hid hsv hd
-  | @dropDangling a sid ha hon hgone =>
-    refine core_dropDangling (a' := { a with server := none, evicted := true }) hc (app?_mem ha) hon ?_ rfl rfl rfl
-    intro s hs e
-    unfold Cell.srv? at hgone
-    have := List.find?_eq_none.mp hgone s hs
-    simp [e] at this
-  | @forgetIdentity a k g grp ha _ _ _ _ =>
-    exact core_appSame (a' := { a with identity := none }) hc (app?_mem ha) rfl rfl rfl
+  | appMeta ha hid hsv _ _ hd _ _ _ _ _ _ _ _ _ _ => exact invCap_appSame hc ha hid hsv hd
+  | ghost ha => exact invCap_appSame hc ha rfl rfl rfl
+  | dropDangling ha hon hgone => exact invCap_dropDangling hc ha hon hgone
+  | forgetIdentity ha _ _ _ _ => exact invCap_appSame hc ha rfl rfl rfl
   | tree => exact hc
+  | clearEv => exact core_mapSame hc _ (fun _ => rfl) (fun _ => rfl) (fun _ => rfl)
 
-/-- A whole scheduling cycle preserves `InvCap`. -/
-theorem invCap_schedule {c c' : Cell} {qs ch} (hc : InvCap c) (h : schedule c qs ch = .ok c') : InvCap c' :=
-  (schedule_reach h).induct (fun _ _ hc hp => invCap_prim hc hp) hc
+theorem invCap_prim {c c' : Cell} (hc : InvCap c) (hp : Prim c c') : InvCap c' := by
+  obtain ⟨lab, hp⟩ := hp
+  exact invCap_lprim hc hp
+
+theorem invCap_reach {c c' : Cell} (hc : InvCap c) (h : Reach c c') : InvCap c' :=
+  h.induct (fun _ _ hc hp => invCap_prim hc hp) hc
+
+theorem invCap_lreach {P} {c c' : Cell} (hc : InvCap c) (h : LReach P c c') : InvCap c' :=
+  invCap_reach hc h.toReach
 
 end TmVerif.Sched
